@@ -52,13 +52,13 @@ prop("C07", [
 prop("C08", [H("H08_tmp"), H("H08_dict", quick={"wall": "175s", "shards": 16, "param": "provs=6,lite=1"}, thorough={"wall": "1500s", "shards": 16, "param": "provs=6"})])
 prop("C12", [H("K5_synonym"), H("H12_syn", common={"param": "maxSyn=2"}, quick={"wall": "140s", "shards": 16})])
 prop("C13", [H("H13_synmerge", quick={"wall": "140s", "shards": 16, "param": "maxSyn=1,emptyTerm=1,drop1=0,reopen=0"}, thorough={"wall": "1500s", "shards": 16, "param": "maxSyn=2,emptyTerm=1,twoGen=1"})])
-prop("C11", [H("H11_pool", quick={"wall": "100s", "shards": 8}), H("H11_effects", quick={"wall": "100s", "shards": 8})])
+prop("C11", [H("H11_pool", quick={"wall": "100s", "shards": 8}), H("H11_effects", common={"race": True}, quick={"wall": "100s", "shards": 7}), H("H11_syn", common={"race": True})])
 prop("C17", [H("H17_writeTo"), H("H17_persist"),
              H("H17_merge", common={"param": "mergeBuf=16"}, quick={"wall": "100s"}),
              H("H17_merge", common={"param": "mergeBuf=64"}, quick={"wall": "100s"})])
 prop("C18", [H("H18_cancel", quick={"wall": "100s"})])
-prop("C20", [H("H20_refs", common={"param": "maxOps=6"}, quick={"wall": "150s", "shards": 8}, thorough={"wall": "900s", "shards": 16, "param": "maxOps=8"}), H("H20_openfail"), H("H20_lockset")])
-prop("C10", [H("H10_seq", quick={"wall": "140s", "shards": 16, "param": "aMax=1,bMax=1"}, thorough={"wall": "1500s", "shards": 16, "param": "aMax=2,bMax=2"})])
+prop("C20", [H("H20_refs", common={"param": "maxOps=6"}, quick={"wall": "150s", "shards": 8}, thorough={"wall": "900s", "shards": 16, "param": "maxOps=8"}), H("H20_openfail"), H("H20_lockset", common={"race": True})])
+prop("C10", [H("H10_effects", quick={"wall": "140s", "shards": 4}), H("H10_seq", quick={"wall": "140s", "shards": 16, "param": "aMax=1,bMax=1"}, thorough={"wall": "1500s", "shards": 16, "param": "aMax=2,bMax=2"})])
 prop("C09", [H("K1_chunksize"), H("K1_chunktable"), H("K7_footer"), H("K6_boundaries"),
              H("H09_layout", quick={"wall": "140s", "shards": 8, "param": "maxDocs=1,lite=1"}, thorough={"wall": "1500s", "shards": 16, "param": "maxDocs=2"}),
              # one number at a time full width (all ten varint length classes of every layout element)
